@@ -349,7 +349,7 @@ func runC06(c *mc.Ctx) {
 		}
 		return b
 	}
-	for L := 0; L <= 45; L++ {
+	for L := 0; L <= 600; L++ { // beyond 37 + 256 and 38 + 512: a length kept in a narrow type wraps back into the accepted values
 		for _, f := range []byte{0x80, 0x00, 0xef} {
 			raws = append(raws, c06Raw{Hex: mc.Hex(mk(L, f)), FixSum: true, Why: fmt.Sprintf("length %d, checksum over all but the last 4 bytes", L)})
 		}
@@ -368,7 +368,7 @@ func runC06(c *mc.Ctx) {
 			}
 		}
 	}
-	for L := 38; L <= 45; L++ { // byte 33 is the compression marker 0x01 but the payload is longer than 38 bytes
+	for L := 38; L <= 600; L++ { // byte 33 is the compression marker 0x01 but the payload is longer than 38 bytes
 		b := mk(L, 0x80)
 		b[33] = 1
 		raws = append(raws, c06Raw{Hex: mc.Hex(b), FixSum: true, Why: fmt.Sprintf("length %d with 0x01 at the marker position", L)})
